@@ -25,6 +25,7 @@ PAUSEKIND = rt.envint("VF_PAUSEKIND", 0)  # split: 0 pause by stop() from a hand
 OBS = EventType("VF_C11_OBS")
 IVAL = [3, -1, 4, 2, 7]
 FVAL = [1.5, 1.5, -2.0, 0.25, 8.0]
+PVAL = [1.5, -2.0, 1.5, 0.25, 8.0]      # persistent: neighbouring slots differ (several changes at one instant must show)
 WVAL = [(2.0, 1.5), (0.0, 9.0), (0.5, -2.0), (1.0, 1.5), (3.0, 0.0)]
 
 GETTERS = {
@@ -90,7 +91,7 @@ class ObsModel(DSOLModel):
     def observe(self, i):
         self.trace.append((self.simulator.simulator_time, i))
         self.count += 1
-        val = {"counter": IVAL[i], "tally": FVAL[i], "weighted": WVAL[i], "persistent": FVAL[i]}[KIND]
+        val = {"counter": IVAL[i], "tally": FVAL[i], "weighted": WVAL[i], "persistent": PVAL[i]}[KIND]
         self.prod.fire(OBS, val)
         if self.count == self.pause_at:
             quiet(self.simulator.stop)
@@ -146,9 +147,24 @@ def schedule(times, prios, warm, end, pause_at, bound=-1):
     else:
         ref = TimestampWeightedTally("ref")
         for t, i in kept:
-            ref.register(float(t), FVAL[i])
+            ref.register(float(t), PVAL[i])
         ref.end_observations(float(E))
         pairs = [(g(stat), g(ref)) for _, g in GETTERS["weighted"]] + [(stat.isactive(), False), (stat.last_value(), ref.last_value())]
+        # independent of the library class: the time average of the piecewise-constant signal, integrated by hand
+        # (when the signal changes several times at one instant the LAST value holds afterwards); times are small
+        # multiples of 1/2 and the values short binary fractions, so the arithmetic below is exact
+        if kept:
+            ts = [float(t) for t, _ in kept] + [float(E)]
+            integral = 0.0
+            for k, (t, i) in enumerate(kept):
+                integral += PVAL[i] * (ts[k + 1] - ts[k])
+            span = ts[-1] - ts[0]
+            if stat.weighted_sum() != integral:
+                return rt.fail("C11:persistent-weighted-sum-is-not-the-integral-of-the-signal",
+                               lambda: f"weighted_sum {stat.weighted_sum()!r}, integral {integral!r}; trace {model.trace} warm-up {warm} end {end}")
+            if span > 0 and abs(stat.weighted_mean() - integral / span) > 1e-12 * max(1.0, abs(integral / span)):
+                return rt.fail("C11:persistent-mean-is-not-the-time-average",
+                               lambda: f"weighted_mean {stat.weighted_mean()!r}, time average {integral / span!r}; trace {model.trace} warm-up {warm} end {end}")
     for n, (a, b) in enumerate(pairs):
         if not _same(a, b):
             return rt.fail(f"C11:{KIND}-differs-from-ordinary-statistic-on-post-warm-up-observations",
